@@ -82,9 +82,71 @@ pub struct StreamSpec {
     pub tweak: fn(&mut GenCfg, &mut Rng),
     /// Fixed extra programs (pattern, flags).
     pub fixed: Vec<(String, Flags)>,
+    /// Include the cross-feature template programs.
+    pub templates: bool,
 }
 
 pub fn no_tweak(_: &mut GenCfg, _: &mut Rng) {}
+
+/// Cross-feature templates: structural skeletons whose holes are filled with literals of
+/// different lengths (crossing the 16-byte literal chunking), fold-special characters, class
+/// strings, backreferences and nested lookarounds. They target interactions that independent
+/// random choices reach only with tiny probability (e.g. a long literal left of a lookaround
+/// nested inside a lookbehind).
+pub fn template_programs() -> Vec<(String, Flags)> {
+    let lits = ["a", "ab", "abcdefghijklmnopq", "abcdefghijklmnopqrstuvwxyz0123456", "k", "é", "aé\u{10000}b", "kKs"];
+    let inner = ["(?=!)", "(?!x)", "(?<=b)", "(?<!x)", "(?=(!))", "(?<=(b))", "\\b", "(?:)", "(z)?", "[ab]", "\\1"];
+    let skeletons = [
+        // lookbehind containing a literal and a nested lookaround at either side
+        "(?<={L}{I})!", "(?<={I}{L})!", "(?<!{L}{I})!", "(?<!{I}{L})!", "(?<={L}{I}{L})!",
+        // lookahead containing a lookbehind with a literal
+        "(?=(?<={L})!)", "(?=!(?<={L}!))", "x?(?<=(?:{L}|{I}){L})!",
+        // captures and backreferences around a lookbehind
+        "({L})(?<=\\1{I})!", "(?<=({L}){I})\\1?!", "(?<=\\1({L}))!",
+        // loops around literals next to lookarounds
+        "(?:{L}{I})+!", "(?:{L}){2}{I}!", "(?<=(?:{L}){2}{I})!",
+    ];
+    let mut v = Vec::new();
+    for sk in skeletons {
+        for l in lits {
+            for i in inner {
+                let p = sk.replace("{L}", l).replace("{I}", i);
+                for fl in ["", "iu"] {
+                    v.push((p.clone(), Flags::from_str(fl)));
+                }
+            }
+        }
+    }
+    // class strings (v) in the same positions
+    let strs = ["[\\q{ab|abc}]", "[\\q{ab|a}]", "[\\q{aé|a}]", "[\\q{kK|k}]", "[\\q{abcdefghijklmnopqr|ab}]", "\\p{Emoji_Keycap_Sequence}"];
+    for sk in ["(?<={L}{I})!", "(?<={I}{L})!", "{L}{I}!", "(?:{L})+{I}", "({L})\\1", "(?<=({L}))\\1?", "{L}(c?)", "(?<!{L})!"] {
+        for l in strs {
+            for i in ["(?=!)", "(?<=b)", "(?:)", "c?"] {
+                let p = sk.replace("{L}", l).replace("{I}", i);
+                for fl in ["v", "iv"] {
+                    v.push((p.clone(), Flags::from_str(fl)));
+                }
+            }
+        }
+    }
+    v
+}
+
+/// Haystacks for template programs: the literals themselves followed / preceded by the
+/// characters the skeletons look for.
+pub fn template_haystacks() -> Vec<String> {
+    let mut v = Vec::new();
+    for l in ["a", "ab", "abc", "abcdefghijklmnopq", "abcdefghijklmnopqrstuvwxyz0123456", "k", "K", "\u{212A}", "é", "É", "aé\u{10000}b", "kKs", "abcdefghijklmnopqr", "aé", "1\u{FE0F}\u{20E3}"] {
+        let l = l.replace("\\u{212A}", "\u{212A}").replace("\\u{10000}", "\u{10000}").replace("\\u{FE0F}", "\u{FE0F}").replace("\\u{20E3}", "\u{20E3}");
+        for pre in ["", "b", "x"] {
+            for post in ["!", "!!", "b!", "c!", ""] {
+                v.push(format!("{}{}{}", pre, l, post));
+                v.push(format!("{}{}{}{}", pre, l, l, post));
+            }
+        }
+    }
+    v
+}
 
 /// Drive `f` over this shard's part of the program stream.
 pub fn for_each_program(cfg: &Cfg, rep: &mut Report, spec: &StreamSpec, mut f: impl FnMut(&Program, &mut Report, &mut Rng)) {
@@ -115,6 +177,14 @@ pub fn for_each_program(cfg: &Cfg, rep: &mut Report, spec: &StreamSpec, mut f: i
         idx += 1;
         let p = Program { idx, pattern: engine::to_cps(pat), flags: *fl, mentioned: mentioned_guess(pat), source: "fixed" };
         run_one(p, rep);
+    }
+    // 1b. cross-feature templates
+    if spec.templates {
+        for (pat, fl) in template_programs() {
+            idx += 1;
+            let p = Program { idx, pattern: engine::to_cps(&pat), flags: fl, mentioned: mentioned_guess(&pat), source: "template" };
+            run_one(p, rep);
+        }
     }
     // 2. exhaustive small scope
     if spec.enum_nodes > 0 {
@@ -169,6 +239,13 @@ fn mentioned_guess(pat: &str) -> Vec<u32> {
 /// Haystacks for a program: all strings up to a length bound over its relevant alphabet, plus
 /// random longer ones with varied alignment.
 pub fn haystacks(p: &Program, rng: &mut Rng, budget: usize, n_long: usize, ascii_only: bool) -> Vec<String> {
+    if p.source == "template" {
+        let mut v = template_haystacks();
+        if ascii_only {
+            v.retain(|s| s.is_ascii());
+        }
+        return v;
+    }
     let mut alpha = gen::relevant_alphabet(&p.mentioned, 5, p.flags.i);
     if ascii_only {
         alpha.retain(|&c| c < 128);
